@@ -76,6 +76,12 @@ def theory():
     T.externals['jax.numpy.cos'] = lambda interp, v: cos(B.to_real(v))
     T.externals['jax.numpy.sin'] = lambda interp, v: sin(B.to_real(v))
     T.trig = (cos, sin)
+    # functional spellings of the arithmetic operators on generic elements (reals)
+    for name, fn in (('add', lambda a, b: a + b), ('subtract', lambda a, b: a - b), ('multiply', lambda a, b: a * b),
+                     ('divide', lambda a, b: a / b), ('true_divide', lambda a, b: a / b)):
+        T.externals[f'jax.numpy.{name}'] = (lambda fn: lambda interp, a, b: fn(B.to_real(a), B.to_real(b)))(fn)
+    T.externals['jax.numpy.negative'] = lambda interp, a: -B.to_real(a)
+    T.externals['jax.numpy.square'] = lambda interp, a: B.to_real(a) * B.to_real(a)
     # floats as reals: `.astype(<dtype of a Stokes component>)` of an element is that element (rounding not modelled)
     def number_attr(interp, v, name):
         if name == 'astype':
